@@ -75,6 +75,13 @@ package fasthttp
 //@     invariant[front-untouched] n <= i && held(cc.mu) && forall j in [0, n): cell(cc.cs, j) != 0
 //@   ensures[returns-new-length] r == len(cc.cs)
 
+// AddClient: the list grows by one under the lock (no nil entry, by the monitor invariant) and the new count is returned.
+//@ func LBClient.AddClient results r
+//@   property C40
+//@   mode skeleton
+//@   nooverflow
+//@   ensures[one-more] len(cc.cs) == atlock(len(cc.cs)) + 1 && r == len(cc.cs)
+
 //@ func lbClient.decPenalty
 //@   property C40
 //@   mode skeleton
